@@ -11,7 +11,9 @@ Operators: NEG (negate an if / while / conditional-expression test), DROP-AND /
 DROP-OR (remove one operand of a boolean operation), DEL (delete a simple
 statement; `return x` -> `return None`), CMP (flip a comparison: is/is not,
 ==/!=, in/not in, </<=, >/>=), CONST (True<->False), SWAP (swap two adjacent
-positional arguments of a call), AWAIT (drop an await).
+positional arguments of a call), AWAIT (drop an await), and three "clean-up" operators for the idioms a tidy-minded
+edit confuses: TRUTHY (`x is None` -> `not x`, `x is not None` -> `x`), FALSY (`if x` -> `if x is not None`),
+NULLUNDEF (`is None` <-> `is UNDEFINED_VALUE`: explicit null versus absent).
 """
 from __future__ import annotations
 
@@ -58,6 +60,14 @@ def _sites(fn) -> List[Tuple[str, int]]:
             out.append(("CMP", i))
         if isinstance(n, ast.Constant) and isinstance(n.value, bool):
             out.append(("CONST", i))
+        # "clean-up" operators: the idioms a tidy-minded edit confuses (null / absent / falsy)
+        if isinstance(n, ast.Compare) and len(n.ops) == 1 and isinstance(n.ops[0], (ast.Is, ast.IsNot)) and _is_none(n.comparators[0]):
+            out.append(("TRUTHY", i))
+        if isinstance(n, (ast.If, ast.While, ast.IfExp)) and _plain_value(n.test) is not None:
+            out.append(("FALSY", i))
+        if isinstance(n, ast.Compare) and len(n.ops) == 1 and isinstance(n.ops[0], (ast.Is, ast.IsNot)) and (
+                _is_none(n.comparators[0]) or _is_undefined(n.comparators[0])):
+            out.append(("NULLUNDEF", i))
         if isinstance(n, ast.Call) and len([a for a in n.args if not isinstance(a, ast.Starred)]) >= 2:
             for k in range(len(n.args) - 1):
                 if not isinstance(n.args[k], ast.Starred) and not isinstance(n.args[k + 1], ast.Starred) and unparse(n.args[k]) != unparse(n.args[k + 1]):
@@ -71,6 +81,24 @@ def _sites(fn) -> List[Tuple[str, int]]:
                 continue
             out.append(("DEL", i))
     return out
+
+
+def _is_none(e):
+    return isinstance(e, ast.Constant) and e.value is None
+
+
+def _is_undefined(e):
+    return isinstance(e, ast.Name) and e.id == "UNDEFINED_VALUE"
+
+
+def _plain_value(test):
+    """x / not x with x a name, attribute or subscript (a truthiness test of a value): returns (x, negated)."""
+    neg = False
+    if isinstance(test, ast.UnaryOp) and isinstance(test.op, ast.Not):
+        test, neg = test.operand, True
+    if isinstance(test, (ast.Name, ast.Attribute, ast.Subscript)):
+        return test, neg
+    return None
 
 
 def _apply(fn, op: str, idx: int) -> Optional[str]:
@@ -94,6 +122,21 @@ def _apply(fn, op: str, idx: int) -> Optional[str]:
         before = unparse(n)
         n.ops = [CMP_FLIP[type(n.ops[0])]()]
         return f"`{before[:60]}` -> `{unparse(n)[:60]}`"
+    if kind == "TRUTHY":
+        before = unparse(n)
+        x = n.left
+        repl = ast.UnaryOp(op=ast.Not(), operand=x) if isinstance(n.ops[0], ast.Is) else x
+        _replace(fn, n, repl)
+        return f"`{before[:60]}` -> `{unparse(repl)[:60]}` (falsy values taken for null)"
+    if kind == "FALSY":
+        before = unparse(n.test)
+        x, neg = _plain_value(n.test)
+        n.test = ast.Compare(left=x, ops=[ast.Is() if neg else ast.IsNot()], comparators=[ast.Constant(value=None)])
+        return f"`{before[:60]}` -> `{unparse(n.test)[:60]}` (falsy values no longer taken for absent)"
+    if kind == "NULLUNDEF":
+        before = unparse(n)
+        n.comparators = [ast.Name(id="UNDEFINED_VALUE", ctx=ast.Load())] if _is_none(n.comparators[0]) else [ast.Constant(value=None)]
+        return f"`{before[:60]}` -> `{unparse(n)[:60]}` (null and absent confused)"
     if kind == "CONST":
         n.value = not n.value
         return f"constant {not n.value} -> {n.value}"
